@@ -98,6 +98,49 @@ pub fn sites(tier: Tier) -> Vec<Site> {
             }));
     }
 
+    // 1b. every character of every page, encoded in that page, followed by every code-page switch
+    // (the decoder's marker scan depends on the bytes in front of the marker)
+    {
+        let mut cells: Vec<(char, char)> = vec![]; // (page, character)
+        for l in ENC_ORDER {
+            for c in &t.pages[&l].chars {
+                cells.push((l, *c));
+            }
+        }
+        let mut nexts: Vec<String> = vec!["L".into(), "8".into(), "^8".into(), "a".into()];
+        for l in ENC_ORDER {
+            if let Some(c) = t.forcing_char(l) {
+                nexts.push(c.to_string());
+            }
+        }
+        let forcing: std::collections::BTreeMap<char, char> = ENC_ORDER.iter().filter_map(|l| t.forcing_char(*l).map(|c| (*l, c))).collect();
+        let cells = Arc::new(cells);
+        let nexts = Arc::new(nexts);
+        let n = cells.len() as u64 * nexts.len() as u64;
+        let tt = t.clone();
+        sites.push(Site::new("char-then-switch", n,
+            "every character of every page, preceded by a character that selects that page, followed by {a character owned by each of the ten pages, 'L', '8', '^8', 'a'}",
+            move |i, acc| {
+                let (page, c) = cells[(i / nexts.len() as u64) as usize];
+                let nx = &nexts[(i % nexts.len() as u64) as usize];
+                let Some(f) = forcing.get(&page) else { return };
+                // "^8" contains a caret: the round trip property excludes carets, but ^8 must be kept
+                let s = format!("{f}{c}{nx}");
+                if nx == "^8" {
+                    acc.eval();
+                    let replay = json!({"site": "char-then-switch", "index": i, "string": s});
+                    let r = guard(|| to_lossy_string(&to_lossy_bytes(&s)).to_string());
+                    match r {
+                        Ok(d) if d == s => { acc.class("round-trips"); },
+                        Ok(d) => acc.violate(i, format!("C10|roundtrip|caret-8-after-character|state-{page}"), format!("{s:?} -> {} -> {d:?}", hex(&to_lossy_bytes(&s))), replay),
+                        Err(p) => acc.violate(i, "C10|decode|panic".into(), p, replay),
+                    }
+                } else {
+                    roundtrip_case(&tt, &s, i, "char-then-switch", &format!("{page}+next"), acc);
+                }
+            }));
+    }
+
     // 2. table identity, single bytes
     {
         let mut cells: Vec<(char, u8, char)> = vec![];
